@@ -13,7 +13,7 @@ LEVEL_TEXT = (
     'Exactness on forest-shaped models as a semantic statement is not decided.')
 
 FLOORS = {'C03-R2': 3, 'C03-R3': 4, 'C03-R4': 1, 'C03-R7': 1, 'C11-R1': 14, 'C01-R1': 3, 'C01-R2': 3, 'C01-R3': 12,
-          'C01-R4': 5, 'C01-R5': 3, 'C01-R7': 5, 'C01-R9': 3, 'C01-R10': 4}
+          'C01-R4': 8, 'C01-R5': 3, 'C01-R7': 5, 'C01-R9': 3, 'C01-R10': 4}
 
 
 def enumerate_index_of_properties(b, v):
